@@ -139,6 +139,32 @@ func intsS(l []int) string {
 }
 
 // rule recomputed from the stored records (the oracle of the property)
+// permRuleHolds: the permission rule of the property recomputed from the stored records - whitelisted directly or through
+// an assigned role, and blacklisted neither directly nor through an assigned role. The reference for every oracle that
+// asks "does this account hold the permission" (never the implementation's own check function).
+func permRuleHolds(ctx sdk.Context, k govkeeper.Keeper, addr sdk.AccAddress, p uint32) bool {
+	a, ok := k.GetNetworkActorByAddress(ctx, addr)
+	if !ok {
+		return false
+	}
+	has := func(l []uint32) bool {
+		for _, v := range l {
+			if v == p {
+				return true
+			}
+		}
+		return false
+	}
+	wl, bl := has(a.Permissions.Whitelist), has(a.Permissions.Blacklist)
+	for _, r := range a.Roles {
+		if ps, ok := k.GetPermissionsForRole(ctx, r); ok {
+			wl = wl || has(ps.Whitelist)
+			bl = bl || has(ps.Blacklist)
+		}
+	}
+	return wl && !bl
+}
+
 func (c *c07) ruleHolds(i int, p uint32) bool {
 	a, ok := c.k.GetNetworkActorByAddress(c.ctx, c.w.addrs[i])
 	if !ok {
